@@ -36,6 +36,9 @@ func c03(c *an.Ctx) {
 				o.Site(i)
 				v := an.StripConv(mu.Value)
 				call, ok := v.(*ssa.Call)
+				if !ok && emptyIfaceSliceValue(p, dp, v) {
+					return // the removal marker itself (markRemoved() written out)
+				}
 				if !ok {
 					o.FailAt(i, "%s stores %s raw into the delta: an array value is read back as 'removed' or 'replaced by its first element', and __key fields are not stripped", nm, an.Short(an.Expr(v), 50))
 					return
@@ -361,25 +364,26 @@ func c03(c *an.Ctx) {
 
 	c.Check("R-CONST", "removal marker and reorder key agree between diff and merge", 4, func(o *an.O) {
 		// markRemoved returns emptyArray, which is an empty []interface{} literal
-		fn := c.NeedFunc(dp, "markRemoved")
-		for _, e := range an.Exits(fn, false) {
-			o.Site(e)
-			v := an.StripConv(e.(*ssa.Return).Results[0])
-			okEmpty := false
-			if ld, ok := v.(*ssa.UnOp); ok {
-				if g, ok := ld.X.(*ssa.Global); ok {
-					okEmpty = globalIsEmptyIfaceSlice(p, dp, g.Name())
+		if fn := p.Func(dp, "markRemoved"); fn != nil {
+			for _, e := range an.Exits(fn, false) {
+				o.Site(e)
+				v := an.StripConv(e.(*ssa.Return).Results[0])
+				if !emptyIfaceSliceValue(p, dp, v) {
+					o.FailAt(e, "markRemoved returns %s, not an empty []interface{}", an.Expr(v))
 				}
 			}
-			if sl, ok := v.(*ssa.Slice); ok {
-				if al, ok := sl.X.(*ssa.Alloc); ok {
-					if at, ok := al.Type().(*types.Pointer).Elem().(*types.Array); ok && at.Len() == 0 {
-						okEmpty = true
-					}
+		} else {
+			// no helper: diffMap must write the empty-array marker itself for removed keys
+			dm := c.NeedFunc(dp, "diffMap")
+			found := false
+			an.Instrs(dm, func(i ssa.Instruction) {
+				if mu, ok := i.(*ssa.MapUpdate); ok && emptyIfaceSliceValue(p, dp, an.StripConv(mu.Value)) {
+					found = true
+					o.Site(i)
 				}
-			}
-			if !okEmpty {
-				o.FailAt(e, "markRemoved returns %s, not an empty []interface{}", an.Expr(v))
+			})
+			if !found {
+				o.Fail(p.Pos(dm.Pos()), "diffMap never writes the removal marker (an empty []interface{}) - removed fields would stay on the client")
 			}
 		}
 		// only markRemoved's global is never appended to / written
@@ -1024,4 +1028,22 @@ func freshValue(v ssa.Value) bool {
 		return false
 	}
 	return walk(v)
+}
+
+// emptyIfaceSliceValue: v is an empty, non-nil []interface{}: the package-level
+// marker (a global initialised with an empty literal) or an empty literal.
+func emptyIfaceSliceValue(p *an.Prog, pkg string, v ssa.Value) bool {
+	if ld, ok := v.(*ssa.UnOp); ok {
+		if g, ok := ld.X.(*ssa.Global); ok {
+			return globalIsEmptyIfaceSlice(p, pkg, g.Name())
+		}
+	}
+	if sl, ok := v.(*ssa.Slice); ok {
+		if al, ok := sl.X.(*ssa.Alloc); ok {
+			if at, ok := al.Type().(*types.Pointer).Elem().(*types.Array); ok && at.Len() == 0 {
+				return true
+			}
+		}
+	}
+	return false
 }
